@@ -28,6 +28,10 @@ func newTypeEnv(sc *Script) *TypeEnv {
 }
 
 func typeKey(t types.Type) string {
+	t = types.Unalias(t)
+	if b, ok := t.(*types.Basic); ok && b.Kind() < types.UntypedBool && b.Kind() != types.Invalid {
+		return types.Typ[b.Kind()].Name() // rune -> int32, byte -> uint8
+	}
 	return types.TypeString(t, nil)
 }
 
@@ -133,7 +137,10 @@ func (te *TypeEnv) zero(t types.Type) string {
 }
 
 // type invariants that hold for every Go value of type t (assumed on fresh values)
-func (te *TypeEnv) typeInv(t types.Type, v string, depth int) string {
+// A is the allocation frontier: every reference that exists at this point is <= A
+// (allocated references are positive and numbered in allocation order; interior
+// references sub(..)/elem(..) and globals are negative; nil is 0).
+func (te *TypeEnv) typeInv(t types.Type, v string, depth int, A string) string {
 	switch u := t.Underlying().(type) {
 	case *types.Basic:
 		if u.Info()&types.IsUnsigned != 0 {
@@ -146,11 +153,13 @@ func (te *TypeEnv) typeInv(t types.Type, v string, depth int) string {
 		return "true"
 	case *types.Slice:
 		return and(app(">=", app("s_off", v), "0"), app(">=", app("s_len", v), "0"), app("<=", app("s_len", v), app("s_cap", v)),
-			implies(eq(app("s_arr", v), "0"), eq(app("s_cap", v), "0")), app(">=", app("s_arr", v), "0"))
+			implies(eq(app("s_arr", v), "0"), eq(app("s_cap", v), "0")), app(">=", app("s_arr", v), "0"), app("<=", app("s_arr", v), A))
 	case *types.Interface:
 		return and(app(">=", app("i_tag", v), "0"), implies(eq(app("i_tag", v), "0"), eq(app("i_val", v), "0")))
-	case *types.Pointer, *types.Map:
-		return app(">=", v, "0")
+	case *types.Pointer:
+		return app("<=", v, A)
+	case *types.Map:
+		return and(app(">=", v, "0"), app("<=", v, A))
 	case *types.Struct:
 		if depth > 2 {
 			return "true"
@@ -158,7 +167,7 @@ func (te *TypeEnv) typeInv(t types.Type, v string, depth int) string {
 		te.sortOf(t)
 		var cs []string
 		for i := 0; i < u.NumFields(); i++ {
-			cs = append(cs, te.typeInv(u.Field(i).Type(), app(te.fieldSel(t, i), v), depth+1))
+			cs = append(cs, te.typeInv(u.Field(i).Type(), app(te.fieldSel(t, i), v), depth+1, A))
 		}
 		return and(cs...)
 	}
@@ -187,8 +196,15 @@ func (te *TypeEnv) box(t types.Type, v string) string {
 		return ite(v, "1", "0")
 	}
 	bx, ub := te.boxFuns(t)
-	_ = ub
-	return app(bx, v)
+	r := app(bx, v)
+	if !strings.Contains(v, "?") {
+		key := "inst:" + r
+		if !te.sc.declSet[key] {
+			te.sc.declSet[key] = true
+			te.sc.assume(eq(app(ub, r), v))
+		}
+	}
+	return r
 }
 
 func (te *TypeEnv) boxFuns(t types.Type) (string, string) {
@@ -197,7 +213,6 @@ func (te *TypeEnv) boxFuns(t types.Type) (string, string) {
 	ub := sym("unbox:" + s)
 	te.sc.decl(bx, fmt.Sprintf("(declare-fun %s (%s) Int)", bx, s))
 	te.sc.decl(ub, fmt.Sprintf("(declare-fun %s (Int) %s)", ub, s))
-	te.sc.declAxiom("box:"+s, fmt.Sprintf("(forall ((x %s)) (! (= (%s (%s x)) x) :pattern ((%s x))))", s, ub, bx, bx), bx)
 	return bx, ub
 }
 
